@@ -18,11 +18,15 @@ echo "testsuite: pass=$pass fail=$fail" | tee -a $log
 rm -f $out/testsuite.log
 echo "== demo with change" >> $log
 ( cd SEEDED && timeout 300 sh ./run_demo.sh ) >> $log 2>&1; rc_with=$?
-git stash -q
+# (no git stash: the stash is shared by all worktrees of a repository)
+git diff -- src > $out/.current.diff
+if ! diff -q $out/.current.diff SEEDED/patch.diff >/dev/null; then echo "note: worktree diff differs from SEEDED/patch.diff; using the worktree diff" | tee -a $log; cp $out/.current.diff SEEDED/patch.diff; fi
+git apply -R $out/.current.diff
 make -j8 >> $log 2>&1
 echo "== demo without change" >> $log
 ( cd SEEDED && timeout 600 sh ./run_demo.sh ) >> $log 2>&1; rc_without=$?
-git stash pop -q
+git apply $out/.current.diff
+rm -f $out/.current.diff
 make -j8 >> $log 2>&1
 echo "demo: with change rc=$rc_with, without change rc=$rc_without" | tee -a $log
 cp SEEDED/patch.diff $out/patch.diff
